@@ -1054,12 +1054,10 @@ theorem loadTrigger_ok (t : TriggerD) (h : validTrigger t = true) : loadTrigger 
 theorem normKeywords_render (tc : TriggerC) : normKeywords (renderTrigger tc) = tc.keywords := rfl
 
 theorem matchType_eq (ty : Str) (m : Option Blob) :
-    normMatchType ty (if falsy (if falsy (m.getD jNull) = true then (if ty = strK then jMatchF else jNull) else m.getD jNull) = true
-        then none else some (if falsy (m.getD jNull) = true then (if ty = strK then jMatchF else jNull) else m.getD jNull)) =
-    normMatchType ty m := by
+    normMatchType ty (renderMatchType (loadMatchType ty m)) = normMatchType ty m := by
   have hF : falsy jMatchF = false := by decide
   have hN : falsy jNull = true := by decide
-  unfold normMatchType
+  unfold normMatchType renderMatchType loadMatchType
   cases m with
   | none =>
     by_cases hk : ty = strK <;> simp [hk, hF, hN, dropFalsy, Option.filter, truthy]
@@ -1475,5 +1473,56 @@ theorem shapeFlow_idem (f : FlowD) : shapeFlow (shapeFlow f) = shapeFlow f := by
   simp only [h2]
   unfold shapeFlow at h1
   simp only [h1]
+
+theorem renderEvent_idem (e : EventD) : renderEvent (renderEvent e) = renderEvent e := by
+  cases e with
+  | mk uuid offset unit eventType deliveryHour message relLabel relKey startMode flow baseLanguage =>
+    by_cases h1 : eventType = strF
+    · subst h1
+      have : ¬ strF = strM := fun h => strM_ne_strF h.symm
+      simp [renderEvent, this]
+    · by_cases h2 : eventType = strM
+      · subst h2
+        simp [renderEvent, strM_ne_strF, filter_truthy_idem]
+      · simp [renderEvent, h1, h2]
+
+theorem renderCampaign_idem (c : CampaignD) : renderCampaign (renderCampaign c) = renderCampaign c := by
+  simp only [renderCampaign, renderGroup_idem, List.map_map]
+  congr 1
+  exact List.map_congr_left (fun e _ => renderEvent_idem e)
+
+theorem matchType_idem (ty : Str) (m : Option Blob) :
+    renderMatchType (loadMatchType ty (renderMatchType (loadMatchType ty m))) = renderMatchType (loadMatchType ty m) := by
+  have hF : falsy jMatchF = false := by decide
+  have hN : falsy jNull = true := by decide
+  unfold renderMatchType loadMatchType
+  by_cases hm : falsy (m.getD jNull) = true
+  · by_cases hk : ty = strK <;> simp [hm, hk, hF, hN]
+  · have hm' : falsy (m.getD jNull) = false := by simpa using hm
+    simp [hm']
+
+theorem shapeTrigger_idem (t : TriggerD) :
+    renderTrigger (trigImg (renderTrigger (trigImg t))) = renderTrigger (trigImg t) := by
+  have hm := matchType_idem t.type t.matchType
+  have hg : ∀ gs : List GroupD, (gs.map renderGroup).map renderGroup = gs.map renderGroup := by
+    intro gs
+    rw [List.map_map]
+    exact List.map_congr_left (fun g _ => renderGroup_idem g)
+  simp only [renderTrigger, trigImg, normKeywords, Option.getD_some, hg, hm]
+
+theorem shapeDoc_idem (d : DocD) : shapeDoc (shapeDoc d) = shapeDoc d := by
+  have h1 : (d.campaigns.map renderCampaign).map renderCampaign = d.campaigns.map renderCampaign := by
+    rw [List.map_map]
+    exact List.map_congr_left (fun c _ => renderCampaign_idem c)
+  have h2 : (d.flows.map shapeFlow).map shapeFlow = d.flows.map shapeFlow := by
+    rw [List.map_map]
+    exact List.map_congr_left (fun f _ => shapeFlow_idem f)
+  have h3 : (d.groups.map plainOf).map plainOf = d.groups.map plainOf := by
+    rw [List.map_map]; rfl
+  have h4 : (d.triggers.map (fun t => renderTrigger (trigImg t))).map (fun t => renderTrigger (trigImg t))
+      = d.triggers.map (fun t => renderTrigger (trigImg t)) := by
+    rw [List.map_map]
+    exact List.map_congr_left (fun t _ => shapeTrigger_idem t)
+  simp only [shapeDoc, h1, h2, h3, h4]
 
 end Rpft.Document
